@@ -472,14 +472,14 @@ def convert_pad_in_width(op):
         zero_tens = create_const_tensor(
             op.name + "_left", shape.as_list(), ofm.dtype, shape.elements() * [pad_value], quantization=quant
         )
-        zero_tens.equivalence_id = create_equivalence_id(tuple(zero_tens.values))
+        zero_tens.equivalence_id = create_equivalence_id((zero_tens.dtype, tuple(zero_tens.values)))
         create_add_for_concat(op, op.name + "_left", zero_tens, shape, shp0)
     if right > 0:
         shape = Shape4D(1, ifm_shape.height, right, ofm_shape.depth)
         zero_tens = create_const_tensor(
             op.name + "_right", shape.as_list(), ofm.dtype, shape.elements() * [pad_value], quantization=quant
         )
-        zero_tens.equivalence_id = create_equivalence_id(tuple(zero_tens.values))
+        zero_tens.equivalence_id = create_equivalence_id((zero_tens.dtype, tuple(zero_tens.values)))
         create_add_for_concat(op, op.name + "_right", zero_tens, shape, shp0.with_width(ofm_shape.width - right))
 
     op.type = Op.ConcatTFLite
